@@ -2260,6 +2260,25 @@ func (vc *VC) GenerateLemmas(lemmas []*Clause) (err error) {
 			vc.obls = append(vc.obls, obls...)
 			continue
 		}
+		if l.Kind == "nocall" {
+			obls, err := vc.P.EvalNoCallClause(l, vc.key)
+			if err != nil {
+				return err
+			}
+			vc.obls = append(vc.obls, obls...)
+			continue
+		}
+		if l.Kind == "secretflow" {
+			obls, trusted, err := vc.P.EvalFlowClause(l, vc.key)
+			if err != nil {
+				return err
+			}
+			for _, tr := range trusted {
+				vc.assumedUsed[tr] = true
+			}
+			vc.obls = append(vc.obls, obls...)
+			continue
+		}
 		if l.Kind == "tables" {
 			obls, err := vc.P.EvalTablesClause(l, vc.key)
 			if err != nil {
